@@ -896,6 +896,18 @@ fn handle(g: &mut Global, req: &Request, t_recv: u64) -> Exchange {
             delay_ms = lo + ca.rng.below(hi.saturating_sub(lo) + 1);
         }
     }
+    {
+        // occasional slow answers: [percent, lo_ms, hi_ms]
+        let sp = cfg_get(ca, "delay_spike").and_then(|v| v.as_array()).cloned();
+        if let Some(sp) = sp {
+            let pct = sp.first().and_then(|v| v.as_u64()).unwrap_or(0);
+            let lo = sp.get(1).and_then(|v| v.as_u64()).unwrap_or(0);
+            let hi = sp.get(2).and_then(|v| v.as_u64()).unwrap_or(lo);
+            if ca.rng.below(100) < pct {
+                delay_ms += lo + ca.rng.below(hi.saturating_sub(lo) + 1);
+            }
+        }
+    }
     if action == "delay" {
         delay_ms += frule.get("ms").and_then(|v| v.as_u64()).unwrap_or(100);
     }
